@@ -11,6 +11,8 @@
  *   N                nothing (an entry that is not instrumented)                    -> "N"
  *   STOP             tracing is being finished (as by a `finish` trigger in another thread): sets
  *                    MCOUNT_GFL_FINISH; the next exit hook tears the thread's shadow stack down    -> "STOP"
+ *   T <n>            the following operations are executed by thread n (0 = initial thread; each thread has
+ *                    its own slots and libmcount's own thread-local shadow stack)          (no output)
  *   Z                next case: clear all slots and the dummy slot (mtd.idx must be 0)  -> "Z"
  *   PE <k> <s>       plthook_entry(&slot[s], k, module, regs) on a fake module whose PLT symbol k is f<k>
  *                    (only in the build with -DC01_WITH_PLT)                        -> "PE <ret!=0> <errno_ok>"
@@ -133,7 +135,7 @@ static void setup_fake_module(void)
 #endif
 
 #define NSLOT 48
-static unsigned long slots[NSLOT];
+static __thread unsigned long slots[NSLOT]; /* every thread has its own stack */
 static int nshow = 16;
 static int reversed; /* slot s lives at slots[NSLOT - 1 - s]: deeper calls at lower addresses, as on a real stack */
 #define SLOT(s) (reversed ? &slots[NSLOT - 1 - ((s) % NSLOT)] : &slots[(s) % NSLOT])
@@ -214,31 +216,14 @@ static void snap(void)
 	printf("\n");
 }
 
-int main(int argc, char **argv)
+static void do_op(char *line)
 {
-	static char line[1 << 15];
+	char op[8] = "";
+	int k = 0;
+	unsigned long s = 0, v = 0;
 
-	if (argc > 1)
-		nshow = atoi(argv[1]);
-	if (nshow > NSLOT)
-		nshow = NSLOT;
-	if (argc > 2 && !strcmp(argv[2], "rev"))
-		reversed = 1;
-	setvbuf(stdout, NULL, _IOFBF, 1 << 16);
-#ifdef C01_WITH_PLT
-	setup_fake_module();
-#endif
-	fake_on = 1;
-	while (fgets(line, sizeof line, stdin)) {
-		char op[8] = "";
-		int k = 0;
-		unsigned long s = 0, v = 0;
-
-		if (line[0] == '#' || line[0] == '\n')
-			continue;
-		sscanf(line, "%7s", op);
-		if (!strcmp(op, "QUIT"))
-			break;
+	sscanf(line, "%7s", op);
+	{
 		if (!strcmp(op, "P")) {
 			sscanf(line, "%*s %lu %lu", &s, &v);
 			*SLOT(s) = v;
@@ -412,6 +397,86 @@ int main(int argc, char **argv)
 			printf("? %s", op);
 		}
 		snap();
+	}
+}
+
+/* worker threads: `T <n>` makes thread n (0 = the initial thread) execute the following operations */
+#include <pthread.h>
+#define NTHREAD 4
+static struct worker {
+	pthread_t th;
+	pthread_mutex_t mu;
+	pthread_cond_t cv;
+	char *line;
+	int done, alive;
+} workers[NTHREAD];
+
+static void *worker_main(void *arg)
+{
+	struct worker *w = arg;
+	pthread_mutex_lock(&w->mu);
+	for (;;) {
+		while (!w->line)
+			pthread_cond_wait(&w->cv, &w->mu);
+		do_op(w->line);
+		w->line = NULL;
+		w->done = 1;
+		pthread_cond_broadcast(&w->cv);
+	}
+	return NULL;
+}
+
+static void dispatch(int n, char *line)
+{
+	struct worker *w = &workers[n % NTHREAD];
+	if (n == 0) {
+		do_op(line);
+		return;
+	}
+	if (!w->alive) {
+		pthread_mutex_init(&w->mu, NULL);
+		pthread_cond_init(&w->cv, NULL);
+		w->alive = 1;
+		pthread_create(&w->th, NULL, worker_main, w);
+	}
+	pthread_mutex_lock(&w->mu);
+	w->done = 0;
+	w->line = line;
+	pthread_cond_broadcast(&w->cv);
+	while (!w->done)
+		pthread_cond_wait(&w->cv, &w->mu);
+	pthread_mutex_unlock(&w->mu);
+}
+
+int main(int argc, char **argv)
+{
+	static char line[1 << 15];
+	int cur = 0;
+
+	if (argc > 1)
+		nshow = atoi(argv[1]);
+	if (nshow > NSLOT)
+		nshow = NSLOT;
+	if (argc > 2 && !strcmp(argv[2], "rev"))
+		reversed = 1;
+	setvbuf(stdout, NULL, _IOFBF, 1 << 16);
+#ifdef C01_WITH_PLT
+	setup_fake_module();
+#endif
+	fake_on = 1;
+	while (fgets(line, sizeof line, stdin)) {
+		char op[8] = "";
+
+		if (line[0] == '#' || line[0] == '\n')
+			continue;
+		sscanf(line, "%7s", op);
+		if (!strcmp(op, "QUIT"))
+			break;
+		if (!strcmp(op, "T")) {
+			cur = atoi(line + 2);
+			continue;
+		}
+		dispatch(cur, line);
 	}
 	fflush(stdout);
 	_exit(0); /* skip libmcount's destructor */
